@@ -90,7 +90,8 @@ ob("C08", "K1.optional_guard", {"c0": CP, "c1": R(32, 32), "was_none": BOOL}, T=
 
 
 # P1: round 2 == round 1 on the conversion pipelines, on a domain WIDER than C01/C02 ----------------------------------------
-TRIGGER_DOCS = ("number of things", "whether to do it", "list of str", "the dataset name or path.", "first arg", "a `str` or `int`")
+TRIGGER_DOCS = ("number of things", "whether to do it", "the result,", "list of str", "the dataset name or path.", "first arg", "a `str` or `int`",
+                "learning rate, defaults to 1", "see foo; bar:")
 TYPES = ("int", "str", "float", "Optional[int]", "List[str]", "dict", "Union[int, str]")
 
 
@@ -145,5 +146,5 @@ def _p1(fmt, d):
 for _fmt in FORMATS:
     for _d in range(len(TRIGGER_DOCS)):
         ob("C08", "P1.round2.%s.d%d" % (_fmt, _d), {"t": R(0, len(TYPES) - 1), "i": R(0, 1) , "nonsuffix": BOOL},
-           tier="quick" if _d < 3 else "thorough", T=500, tpath=120, funcs=FORMAT_FUNCS[_fmt], assumes=[ADHOC_SHIMS_DOC],
+           tier="quick" if _d < 4 else "thorough", T=500, tpath=120, funcs=FORMAT_FUNCS[_fmt], assumes=[ADHOC_SHIMS_DOC],
            bound="description %r x types %r x int default 0/1 in suffix or NON-suffix position, return entry; round 2 == round 1 (solver-enumerated)" % (TRIGGER_DOCS[_d], TYPES))(_p1(_fmt, _d))
